@@ -13,17 +13,17 @@ IMPL = dict(HeaderOffOk=True, HalfPointOk=True)
 INTENDED = dict(HeaderOffOk=True, HalfPointOk=True)
 B = {False, True}
 STRATS = {"plain", "pageby", "pageby_np_col", "pageby_np_first", "subline", "subpb", "groupby"}
-FULL = dict(Paths={"single", "multi", "figure"}, Strats=STRATS, HdrModes={"default", "explicit", "multi", "none", "off"}, NSet={0, 1, 2, 5, 12},
+FULL = dict(Paths={"single", "multi", "figure"}, Strats=STRATS, HdrModes={"default", "explicit", "multi", "multi2", "none", "off"}, NSet={0, 1, 2, 5, 12},
             MSet={1, 2, 4}, BoolSet=B, PlaceSet={"first", "last", "all"}, FootSet={"none", "table", "para"}, HFSet=B, PaperSet={"letter", "landscape", "a4", "custom"}, NrowSet={2, 3, 5, 40},
             ShapeSet={"scalar", "col", "matrix", "recycle"}, SizeSet={"int", "half"}, KindSet={"str", "blanks", "int", "float", "null", "field", "long", "astral"}, ContigSet=B,
-            KeyTypeSet={"str", "int", "date", "null"}, SeqSet={"list", "tuple", "str"})
+            KeyTypeSet={"str", "int", "date", "null"}, SeqSet={"list", "tuple", "str"}, PriorSet={"none", "narrow"})
 # reduced product: two values per dimension (pairwise interactions complete)
 REDUCED = {"quick": dict(Paths={"single", "multi", "figure"}, Strats={"plain", "subpb", "groupby"}, HdrModes={"default", "off"}, NSet={0, 5}, MSet={2}, BoolSet=B,
                          PlaceSet={"all"}, FootSet={"none", "table"}, HFSet={True}, PaperSet={"letter"}, NrowSet={3}, ShapeSet={"matrix", "recycle"}, SizeSet={"int", "half"},
-                         KindSet={"null", "astral"}, ContigSet=B, KeyTypeSet={"str"}, SeqSet={"list"}),
+                         KindSet={"null", "astral"}, ContigSet=B, KeyTypeSet={"str"}, SeqSet={"list"}, PriorSet={"none"}),
            "thorough": dict(Paths={"single", "multi", "figure"}, Strats={"plain", "subpb", "groupby", "pageby"}, HdrModes={"default", "off", "multi"}, NSet={0, 5}, MSet={2}, BoolSet=B,
                             PlaceSet={"first", "all"}, FootSet={"none", "table", "para"}, HFSet=B, PaperSet={"letter"}, NrowSet={3}, ShapeSet={"matrix"},
-                            SizeSet={"int", "half"}, KindSet={"null", "field"}, ContigSet=B, KeyTypeSet={"str", "int"}, SeqSet={"list", "tuple"})}
+                            SizeSet={"int", "half"}, KindSet={"null", "field"}, ContigSet=B, KeyTypeSet={"str", "int"}, SeqSet={"list", "tuple"}, PriorSet={"none"})}
 PLAN = {"quick": dict(sim=500), "thorough": dict(sim=30000)}
 
 
@@ -77,6 +77,11 @@ def run(pid, tier, seed, replay=None):
         g1 = dict(REDUCED[tier]); g1.update(IMPL)
         got = family.generate(ctx, work, "DocConfig", g1, "reduced")
         ctx.extra["reduced_product_scenarios"] = len(got)
+        # a small exhaustive family around caller-owned objects used before and spanning header rows
+        g3 = dict(REDUCED["quick"]); g3.update(IMPL)
+        g3.update(Paths={"single"}, Strats={"plain", "subpb", "pageby"}, HdrModes={"default", "multi2"}, NSet={5}, MSet={2, 4}, ShapeSet={"scalar"},
+                  KindSet={"str"}, SizeSet={"int"}, FootSet={"none"}, BoolSet={False}, PriorSet={"none", "narrow"})
+        got += family.generate(ctx, work, "DocConfig", g3, "objects")
         g2 = dict(FULL); g2.update(IMPL)
         got += family.generate(ctx, work, "DocConfig", g2, "sampled", simulate_num=PLAN[tier]["sim"], depth=40, seed=seed)
         items = []
